@@ -393,6 +393,28 @@ func numKinds() []numKind {
 	}
 }
 
+// reshapeRange turns a two-sided range rule (lower=b, upper=b+10) into one with equal bounds
+// ("x=y": both b) or an inverted one ("x>y": lower=b+10, upper=b, which the rules define as
+// "outside the interval").
+func reshapeRange(r *validate.FieldRules, op string) *validate.FieldRules {
+	rm := r.ProtoReflect()
+	tf := rm.WhichOneof(rm.Descriptor().Oneofs().ByName("type"))
+	m := rm.Mutable(tf).Message()
+	lo := m.WhichOneof(m.Descriptor().Oneofs().ByName("greater_than"))
+	hi := m.WhichOneof(m.Descriptor().Oneofs().ByName("less_than"))
+	if lo == nil || hi == nil {
+		return r
+	}
+	lv, hv := m.Get(lo), m.Get(hi)
+	if strings.Contains(op, "=") {
+		m.Set(hi, lv)
+	} else {
+		m.Set(lo, hv)
+		m.Set(hi, lv)
+	}
+	return r
+}
+
 func ruleCatalogue() []ruleCase {
 	var out []ruleCase
 	// ---- numeric ----
@@ -422,7 +444,7 @@ func ruleCatalogue() []ruleCase {
 				bounds = append(bounds, bound{"near-max", 0, math.MaxUint32 - 20, 0})
 			}
 		}
-		for _, op := range []string{"gt", "gte", "lt", "lte", "const", "gte+lte", "gt+lt", "in"} {
+		for _, op := range []string{"gt", "gte", "lt", "lte", "const", "gte+lte", "gt+lt", "in", "gte=lte", "gt=lt", "gte>lte", "gt>lt"} {
 			for _, b := range bounds {
 				if !nk.Signed && b.Class == "negative" {
 					continue
@@ -442,7 +464,14 @@ func ruleCatalogue() []ruleCase {
 						enc = "+int64number"
 					}
 					rc.ID = fmt.Sprintf("rules/numeric-%s/%s%s/bound=%s", op, spec.KindName(nk.T), enc, b.Class)
-					rc.Rules = nk.rules(op, b.I, b.U, b.F, []float64{10, 20, 30})
+					switch op {
+					case "gte=lte", "gte>lte":
+						rc.Rules = reshapeRange(nk.rules("gte+lte", b.I, b.U, b.F, nil), op)
+					case "gt=lt", "gt>lt":
+						rc.Rules = reshapeRange(nk.rules("gt+lt", b.I, b.U, b.F, nil), op)
+					default:
+						rc.Rules = nk.rules(op, b.I, b.U, b.F, []float64{10, 20, 30})
+					}
 					// probes around the bound(s)
 					addP := func(class string, di int64, df float64) {
 						var v protoreflect.Value
@@ -462,7 +491,7 @@ func ruleCatalogue() []ruleCase {
 					addP("at", 0, 0)
 					addP("below", -1, -0.25)
 					addP("above", 1, 0.25)
-					if strings.Contains(op, "+") {
+					if strings.Contains(op, "+") || strings.Contains(op, ">") {
 						addP("at-upper", 10, 10)
 						addP("above-upper", 11, 10.25)
 						addP("inside", 5, 5)
